@@ -13,16 +13,16 @@ import (
 // withholds the acknowledgement.
 
 type c14path struct {
-	Nodes       int    `json:"nodes"`
-	Publisher   int    `json:"publisher_node"`
-	Hosts       []int  `json:"per_node_subscribers"` // bit0: matching, bit1: non-matching
-	Unreachable []int  `json:"unreachable_nodes"`
-	Pair        int    `json:"topic_filter_pair"`
-	Qos         int32  `json:"qos"`
-	Withhold    int    `json:"subscription_gossip_withheld_from_node"` // 0 = none
-	Extra       int    `json:"second_matching_subscriber_on_node"`      // 0 = none; subscribes last, so matching subscriptions alternate between nodes
-	Slow        []int  `json:"slow_nodes"`                              // nodes whose log takes 2 s per append
-	Roam        bool   `json:"subscription_of_a_node1_session_re-created_through_node_2_rpc"`
+	Nodes       int   `json:"nodes"`
+	Publisher   int   `json:"publisher_node"`
+	Hosts       []int `json:"per_node_subscribers"` // bit0: matching, bit1: non-matching
+	Unreachable []int `json:"unreachable_nodes"`
+	Pair        int   `json:"topic_filter_pair"`
+	Qos         int32 `json:"qos"`
+	Withhold    int   `json:"subscription_gossip_withheld_from_node"` // 0 = none
+	Extra       int   `json:"second_matching_subscriber_on_node"`     // 0 = none; subscribes last, so matching subscriptions alternate between nodes
+	Slow        []int `json:"slow_nodes"`                             // nodes whose log takes 2 s per append
+	Roam        bool  `json:"subscription_of_a_node1_session_re-created_through_node_2_rpc"`
 }
 
 var c14pairs = [][3]string{{"a/b", "a/+", "a/c"}, {"a", "a/#", "b/#"}, {"a/b/c", "#", "+"}, {"a/b", "+/b", "a/b/c"}}
